@@ -17,6 +17,14 @@ pub const LOOKALIKE_ENVS: &[S] = &[
     "FORCE_COLOR", "CLICOLOR", "CLICOLOR_FORCE", "TERM", "COLUMNS", "LINES", "HOME", "USER", "PATH",
     "COMP_LINE", "COMP_WORDS", "RUST_BACKTRACE", "LANG", "LC_ALL",
 ];
+/// every variable name any generator may use or touch
+pub fn all_env_names() -> Vec<&'static str> {
+    let mut v: Vec<&'static str> = Vec::new();
+    v.extend(ENVS.iter().copied());
+    v.extend(["BPAF_V_G", "BPAF_V_H"].iter().copied());
+    v.extend(LOOKALIKE_ENVS.iter().copied());
+    v
+}
 pub const METAVARS: &[S] = &["A", "FILE", "N", "VAL", "X-Y", "É"];
 pub const CMDS: &[S] = &["cmd", "sub", "run", "x", "alpha", "é"];
 pub const TEXTS: &[S] = &[
